@@ -161,11 +161,15 @@ PROPS.update({
     "C18": _e3("TestVerifC18", "Generated sequences of SetNumLoops/SetLoadBalance applied between phases on private managers, each phase with 1-32 goroutines calling Pick concurrently (the first phase races the lazy initialisation); pool size, membership, liveness of every poller (an operator registered on it must receive an event), descriptor census after shrink and Close, round-robin spread.",
                "scenario = initial size 1-5 x 1-4 phases of (loops 1-6, RoundRobin/Random, 1/2/8/32 goroutines x 1-40 Picks); non-trivial = at least one phase with concurrent Picks; distinct = scenario",
                quick=12, thorough=300),
-    "C19": _e3("TestVerifC19", "The E3 workloads (bulk streams both ways, Shutdown during traffic, concurrent dials incl. failing ones, pool reconfiguration, descriptor lifecycles) plus a close race (one reader, one writer, 1-4 closers on both ends) and a writer stuck in a partial flush closed from other goroutines (with and without a slow user close callback) run under the Go race detector inside the documented concurrency contract; every race report is a violation.",
-               "workload drawn from {bulk, shutdown, dial, pool, closerace, blockedwrite, fdsteps} with generated parameters; every case is non-trivial (several goroutines of different roles - poller, handler task, user reader/writer, closer - touch the same connection or pool); distinct = workload kind + parameters",
+    "C19": dict(_e3("TestVerifC19", "The E3 workloads (bulk streams both ways, Shutdown during traffic, concurrent dials incl. failing ones, pool reconfiguration, descriptor lifecycles) plus a close race (one reader, one writer, 1-4 closers on both ends) and a writer stuck in a partial flush closed from other goroutines (with and without a slow user close callback) and (second binary, package mux) a ShardQueue on a real connection with 2-8 concurrent adders, nil getters, Close during the Adds and a peer that goes away, run under the Go race detector inside the documented concurrency contract; every race report is a violation.",
+               "workload drawn from {bulk, shutdown, dial, pool, closerace, blockedwrite, fdsteps, shardqueue} with generated parameters; every case is non-trivial (several goroutines of different roles - poller, handler task, user reader/writer, closer - touch the same connection or pool); distinct = workload kind + parameters",
                quick=20, thorough=300, variant="race", crash_is_violation=True, timeout_s=3000,
                technique="generated concurrent workloads under the Go race detector (oracle: zero race reports outside the harness)",
                env={"GORACE": "halt_on_error=0"}),
+        parts=[
+            {"test": "TestVerifC19", "variant": "race", "pkg": ".", "quick": {"checks": 20, "shards": 8}, "thorough": {"checks": 300, "shards": 12}},
+            {"test": "TestVerifC19Mux", "variant": "race", "pkg": "mux", "quick": {"checks": 15, "shards": 4}, "thorough": {"checks": 300, "shards": 6}},
+        ]),
 })
 
 ENGINES = [
